@@ -122,6 +122,7 @@ type Interp struct {
 		feasQ, assertQ, cacheHits int
 	}
 	qcache   map[string]string
+	cacheBytes int // bytes held by qcache/ecache keys (bounds memory: see Explore)
 	ecache   map[string][]int64
 	varCache map[int][]int
 	varIDs   map[string]int
@@ -382,6 +383,7 @@ func (in *Interp) feasible(t *Term) string {
 		in.unknowns++
 	} else {
 		in.qcache[key] = r
+		in.cacheBytes += len(key) + 16
 	}
 	return r
 }
@@ -518,6 +520,7 @@ func (in *Interp) concretize(t *Term, what string) int64 {
 		sortInt64(found)
 		if !inconclusive {
 			in.ecache[ekey] = append([]int64(nil), found...)
+			in.cacheBytes += len(ekey) + 8*len(found) + 16
 		}
 	}
 	if len(found) == 0 {
